@@ -556,11 +556,16 @@ func ruleFunctionIdentity(w *World, r *Report, rule string) {
 				case *ast.AssignStmt:
 					for _, l := range p.Lhs {
 						if fv := fieldOf(info, l); fv != nil {
-							// the struct holding it has a reflect.Type field
+							// the struct holding it has a reflect.Type field, and that field has been
+							// given a value on every path to this assignment
 							if st, ok := info.TypeOf(selBase(l)).Underlying().(*types.Struct); ok {
 								for i := 0; i < st.NumFields(); i++ {
 									if isNamedType(st.Field(i).Type(), "reflect", "Type") {
-										good, how = true, "stored in a key struct that also carries the reflect.Type"
+										if typeFieldSetBefore(w, fi, p, selBase(l), st.Field(i)) {
+											good, how = true, "stored in a key struct that also carries the reflect.Type"
+										} else {
+											how = "stored in a key struct whose reflect.Type component is not set on this path"
+										}
 									}
 								}
 							}
@@ -1607,4 +1612,56 @@ func wrapperExcludesTransient(w *World, ro *roles, fi *FuncInfo, depth int) bool
 		}
 	}
 	return true
+}
+
+// typeFieldSetBefore: on every path to stmt the field tf of the struct variable
+// base has been given a value (in the literal that initialised it or by an assignment).
+func typeFieldSetBefore(w *World, fi *FuncInfo, stmt ast.Node, base ast.Expr, tf *types.Var) bool {
+	info := fi.Pkg.TypesInfo
+	bo := objOf(info, base)
+	if bo == nil {
+		return true // not a local key variable: nothing to track
+	}
+	var body *ast.BlockStmt = fi.Decl.Body
+	ast.Inspect(fi.Decl.Body, func(x ast.Node) bool {
+		if lit, ok := x.(*ast.FuncLit); ok && lit.Body.Pos() <= stmt.Pos() && stmt.End() <= lit.Body.End() {
+			body = lit.Body
+		}
+		return true
+	})
+	fl := NewFlow(w, fi.Pkg, body, fi.Name())
+	sol := fl.Solve(Spec{Must: true, Node: func(n ast.Node, in Facts) (gen, kill []string) {
+		inspectNoLit(n, func(x ast.Node) bool {
+			switch s := x.(type) {
+			case *ast.AssignStmt:
+				for i, l := range s.Lhs {
+					if fieldOf(info, l) == tf && objOf(info, selBase(l)) == bo {
+						gen = append(gen, "typ-set")
+					}
+					if objOf(info, l) == bo && i < len(s.Rhs) {
+						kill = append(kill, "typ-set")
+						if cl := litOf(s.Rhs[i]); cl != nil {
+							if _, has := compositeFields(cl)[tf.Name()]; has {
+								gen = append(gen, "typ-set")
+							}
+						}
+					}
+				}
+			case *ast.ValueSpec:
+				for i, nm := range s.Names {
+					if info.Defs[nm] == bo && i < len(s.Values) {
+						if cl := litOf(s.Values[i]); cl != nil {
+							if _, has := compositeFields(cl)[tf.Name()]; has {
+								gen = append(gen, "typ-set")
+							}
+						}
+					}
+				}
+			}
+			return true
+		})
+		return
+	}})
+	nd := fl.NodeContaining(stmt.Pos())
+	return nd != nil && sol.Before[nd].Has("typ-set")
 }
